@@ -173,6 +173,7 @@ def corruptions(rng, w, atoms, fluents, goal):
             out.append(("wrong-type", "fact", (atoms - {a}) | {na}, fluents, goal))
         out.append(("wrong-arity", "fact", (atoms - {a}) | {a + (a[1],)}, fluents, goal))
         out.append(("wrong-arity", "fact", (atoms - {a}) | {a[:-1]}, fluents, goal))
+        out.append(("wrong-arity", "fact", (atoms - {a}) | {a[:1]}, fluents, goal))   # no argument at all
         out.append(("undeclared-object", "fact", (atoms - {a}) | {a[:-1] + ("nobody",)}, fluents, goal))
     if atoms:
         a = rng.choice(sorted(atoms))
@@ -204,6 +205,7 @@ def corruptions(rng, w, atoms, fluents, goal):
         if b:
             out.append(("wrong-type", "goal-literal", atoms, fluents, ["and"] + others + [g[:1 + i] + [b] + g[2 + i:]]))
         out.append(("wrong-arity", "goal-literal", atoms, fluents, ["and"] + others + [g + [g[1]]]))
+        out.append(("wrong-arity", "goal-literal", atoms, fluents, ["and"] + others + [g[:1]]))   # no argument at all
         out.append(("undeclared-object", "goal-literal", atoms, fluents, ["and"] + others + [g[:-1] + ["nobody"]]))
         out.append(("undeclared-predicate", "goal-literal", atoms, fluents, ["and"] + others + [["ghost"] + g[1:]]))
     gnums = [g for g in goal[1:] if g[0] in model.CMP and len(g[1]) > 1]
@@ -219,6 +221,12 @@ def corruptions(rng, w, atoms, fluents, goal):
         out.append(("wrong-arity", "numeric-goal", atoms, fluents, ["and"] + others + [[g[0], f + [f[1]], g[2]]]))
         out.append(("undeclared-object", "numeric-goal", atoms, fluents, ["and"] + others + [[g[0], f[:-1] + ["nobody"], g[2]]]))
         out.append(("undeclared-function", "numeric-goal", atoms, fluents, ["and"] + others + [[g[0], ["ghostf"] + f[1:], g[2]]]))
+        # the ill-formed fluent is not the first one of its condition: behind a well-formed one, on the other side or in a sum
+        bads = [f + [f[1]], f[:-1] + ["nobody"], ["ghostf"] + f[1:]] + ([f[:1 + i] + [b] + f[2 + i:]] if b else [])
+        kinds = ["wrong-arity", "undeclared-object", "undeclared-function"] + (["wrong-type"] if b else [])
+        j = rng.randrange(len(bads))
+        shape = rng.choice([[g[0], f, bads[j]], [g[0], ["+", f, bads[j]], g[2]], [g[0], ["-", ["*", f, "2"], bads[j]], g[2]]])
+        out.append((kinds[j], "numeric-goal-later-fluent", atoms, fluents, ["and"] + others + [shape]))
     return out
 
 
@@ -226,7 +234,7 @@ def run(ctx):
     lib.assert_repo()
     rng = ctx.rng("c05")
     thorough = ctx.tier == "thorough"
-    n_worlds = 70 if thorough else 5
+    n_worlds = 70 if thorough else 10
     per_world = 9 if thorough else 4
     for wi in range(n_worlds):
         w = gen.gen_world(rng, max_arity=3, n_objs=rng.randint(3, 5), n_funcs=rng.randint(1, 3))
